@@ -87,7 +87,7 @@ func EndBlocker(ctx sdk.Context, k keeper.Keeper) {
 		}
 
 		if requestContext.State == types.RUNNING {
-			providers, totalPrices, rawDenom, err := k.FilterServiceProviders(
+			providers, _, rawDenom, err := k.FilterServiceProviders(
 				ctx,
 				requestContext.ServiceName,
 				providers,
@@ -112,7 +112,9 @@ func EndBlocker(ctx sdk.Context, k keeper.Keeper) {
 			}
 
 			if len(providers) > 0 && len(providers) >= int(requestContext.ResponseThreshold) {
-				if err := k.DeductServiceFees(ctx, consumer, totalPrices); err != nil {
+				// charge exactly the fees the new requests record (discounted prices)
+				totalFees := k.GetTotalServiceFees(ctx, requestContext.ServiceName, providers, consumer)
+				if err := k.DeductServiceFees(ctx, consumer, totalFees); err != nil {
 					k.OnRequestContextPaused(
 						ctx,
 						requestContext,
